@@ -61,8 +61,15 @@ def apply_op(d, m, op):
             m.items.reverse()
             d.reverse()
         elif kind == 'sort':
-            m.items.sort(key=lambda kv: kv[0])
-            d.sort()
+            kf = {None: None, 'const': (lambda k: 0), 'last': (lambda k: k[-1:]), 'len': len}[op.get('key')]
+            rv = bool(op.get('reverse', False))
+            m.items.sort(key=(lambda kv: kv[0]) if kf is None else (lambda kv: kf(kv[0])), reverse=rv)
+            kw = {}
+            if 'key' in op:
+                kw['key'] = kf
+            if 'reverse' in op:
+                kw['reverse'] = rv
+            d.sort(**kw)
         elif kind == 'append':
             v = op.get('value', 'MARKER')
             if m._idx(op['key']) is not None and not op.get('replace', True):
@@ -125,6 +132,8 @@ def _ops_alphabet(keys, n):
         ops.append({'op': 'append', 'key': k, 'value': 'x', 'replace': False})
     for i in range(-1, n + 1):
         ops.append({'op': 'pop_at', 'index': i})
+    ops += [{'op': 'sort', 'reverse': True}, {'op': 'sort', 'key': 'const'}, {'op': 'sort', 'key': 'const', 'reverse': True},
+            {'op': 'sort', 'key': 'last', 'reverse': True}, {'op': 'sort', 'key': 'len', 'reverse': True}, {'op': 'sort', 'key': None, 'reverse': False}]
     ops += [{'op': 'reverse'}, {'op': 'sort'}, {'op': 'extend', 'items': [[keys[-1], 'e1'], [keys[0], 'e2']]}]
     return ops
 
